@@ -143,6 +143,10 @@ def forms_workload(ck, pid, tier, salts):
     als = gen_abstract_lines(ck, "all" if thorough else "pairwise")
     ck.notes["abstract_lines_generated"] = len(als)
     als = stratified(r, als, 6 if thorough else 2)
+    if pid == "C07":
+        # $9$-looking values that do not decrypt are secrets too: their content must not show in output or logs
+        extra = [dict(a, cls=["juniper9bad", a["cls"][1]]) for a in als if a["cls"][0] == "juniper9" and a["eq"] == "one"]
+        als = als + extra[:: 3]
     ck.notes["abstract_lines_run"] = len(als)
     reserved = set(default_reserved_words)
     traces, meta = [], []
@@ -343,6 +347,63 @@ def same_form_twice(ck, pid):
     return traces, meta
 
 
+def files_workload(ck, pid):
+    """One run over a directory in which a file in the middle cannot be decoded: the files before and after it
+    must still share one consistent, collision-free lookup (C08: 'within one run')."""
+    import logging
+    traces, meta = [], []
+    r = rng(pid, "files")
+    for variant in range(3):
+        base = tlc.subdir("c08files_%d" % variant)
+        ind, outd = os.path.join(base, "in"), os.path.join(base, "out")
+        secs = [G.gen_secret(r, c) for c in ("text", "hex", "type7", "text", "numeric", "md5")]
+        files = {
+            "a_first.cfg": ["enable secret %s" % secs[0], "snmp-server community %s RO" % secs[1], "username bob password 7 %s" % secs[2]],
+            "m_broken.cfg": None,
+            "z_last.cfg": ["enable secret %s" % secs[0], "tacacs-server key %s" % secs[3], "key %s" % secs[4], "enable secret 5 %s" % secs[5], "snmp-server community %s RW" % secs[1]],
+        }
+        if variant == 1:
+            files["sub/deeper.cfg"] = ["key %s" % secs[3], "enable secret %s" % secs[0]]
+        os.makedirs(ind)
+        for name, lines in files.items():
+            pth = os.path.join(ind, name)
+            os.makedirs(os.path.dirname(pth), exist_ok=True)
+            with open(pth, "wb") as fh:
+                fh.write(("enable secret BrokenFileSecretXq\n".encode() + b"\xff\xfe broken \xff\n") if lines is None else ("\n".join(lines) + "\n").encode())
+        root = logging.getLogger()
+        old = root.level
+        root.setLevel(logging.CRITICAL)
+        try:
+            AF.anonymize_files(ind, outd, True, False, salt=["TESTSALT", "", "Qx"][variant])
+        except Exception as e:
+            traces.append([{"ev": "run", "clauses": CLAUSES[pid]}, {"ev": "exc", "what": "anonymize_files: %r" % (e,)}])
+            meta.append({"key": "files-with-broken-file-in-the-middle", "lines": []})
+            continue
+        finally:
+            root.setLevel(old)
+        ev = [{"ev": "run", "clauses": CLAUSES[pid]}]
+        shown = []
+        for name in sorted(n for n, l in files.items() if l is not None):
+            po = os.path.join(outd, name)
+            outs = open(po, encoding="utf-8").read().split("\n")[:-1] if os.path.isfile(po) else None
+            if outs is None or len(outs) != len(files[name]):
+                ev.append({"ev": "exc", "what": "output of %s missing or has another number of lines" % name})
+                continue
+            for ln, o in zip(files[name], outs):
+                w = ln.split()
+                v = w[-2] if w[-1] in ("RO", "RW") else w[-1]
+                conc = {"words": w, "lead": "", "secrets": [{"value": v, "cls": G.classify(v)[0], "slen": G.classify(v)[1], "index": w.index(v), "pre": "", "post": "", "head": "", "tail": "", "n": 1}]}
+                for e in G.project(conc, o, "replace"):
+                    e["ev"] = "sec"
+                    e["key"] = G.secret_key(v)
+                    ev.append(e)
+                shown.append("%s: %s -> %s" % (name, ln, o))
+        traces.append(ev)
+        meta.append({"key": "files-with-broken-file-in-the-middle", "lines": shown})
+        ck.count(("c08files", variant))
+    return traces, meta
+
+
 def run(pid, tier):
     ck = Check(pid, tier)
     ck.assumptions = ["the form table in SecretForms.tla (derived from the documented syntaxes) is the set of recognised line forms",
@@ -362,6 +423,8 @@ def run(pid, tier):
     if pid == "C08":
         traces, meta = same_form_twice(ck, pid)
         judge(ck, pid, traces, meta, "twice")
+        traces, meta = files_workload(ck, pid)
+        judge(ck, pid, traces, meta, "files")
     ck.rule = ("cases = abstract lines enumerated by TLC from the form table (distinct by form, alternatives, class, wrap, lead), "
                "occurrence histories enumerated by TLC from PwdLookup, long random runs; each concretized with fresh secret values")
     return ck.finish()
